@@ -1,5 +1,453 @@
+/-
+  Props/C18.lean — property theorems for C18 (nice / ionice / cpu_affinity / rlimit).
+  Only statements the property makes; helper lemmas live in Proofs/C18*.lean.
+
+  `cfg` is built from Generated/C18.lean, which the translator rewrites from /repo's source on
+  every run; `cfg_good` is the proof obligation that breaks when the C packing constant or
+  macros change, when `ionice_set`'s bounds / class set / default change, when the `IOPriority`
+  enum changes, when `rlimit` stops checking `len(limits) != 2` or stops refusing PID 0, when the
+  front end stops raising for a level without a class, stops de-duplicating / sorting, or takes
+  the CPUs for `cpu_affinity([])` from the current mask again.
+-/
+import PsutilModel.Proofs.C18Refine
 import PsutilModel.Model.C18Gen
-import PsutilModel.Spec.C18
 namespace Psutil.C18
-theorem placeholder : cfg.shift = 13 := by decide
+open Spec
+
+theorem cfg_good : cfg.Good := by constructor <;> decide
+
+/-! ### packing -/
+
+/-- `IOPRIO_PRIO_VALUE` then `IOPRIO_PRIO_CLASS/DATA` (with the shift of the C source) give the
+    class and data back, the packed value fits the kernel's `unsigned short`, and the kernel
+    reads the same class out of it -/
+theorem C18_ioprio_roundtrip (cls data : Nat) (hc : cls < 8) (hd : data < 8192) :
+    ioprioUnpack cfg.shift (ioprioPack cfg.shift cls data) = (cls, data) ∧
+    ioprioPack cfg.shift cls data < 65536 ∧
+    ioprioClassOf (ioprioPack cfg.shift cls data) = cls := by
+  rw [cfg_good.shift]
+  refine ⟨unpack_pack cls data hd, ?_, ?_⟩
+  · rw [pack_eq _ _ hd]; omega
+  · rw [pack_eq _ _ hd]; exact classOf_eq cls data hc hd
+
+/-! ### refinement: whatever the specification promises, the code does -/
+
+/-- For EVERY kernel state, process, and request: when the specification promises an outcome
+    (a get form, a set form with a valid value, one of the listed invalid requests,
+    `cpu_affinity([])`), the model returns exactly that result and leaves exactly that kernel
+    (same per-process states, same log of changes). The only exclusion is the region of the
+    known finding `C18-ineligible-oserror`. -/
+theorem C18_refines (c : Cfg) (hg : c.Good) (k : Kernel) (pid : Nat) (st : PState) (req : Req)
+    (o : Out) (k' : Kernel) (hpid : pid ≠ 0) (hst : k.procs pid = some st) (hwf : WF k st)
+    (hreg : ¬ InFindingRegion k st req)
+    (hs : Spec.expect k pid st req = .promised o k') : step c k pid req = (o, k') := by
+  cases req with
+  | nice v => exact refines_nice c k pid st v o k' hpid hst hs
+  | ionice cls v => exact refines_ionice c hg k pid st cls v o k' hpid hst hs
+  | cpuAffinity cpus => exact refines_affinity c hg k pid st cpus o k' hpid hst hwf hreg hs
+  | rlimit res l => exact refines_rlimit c hg k pid st res l o k' hpid hst hs
+
+theorem replaced_self (k : Kernel) (pid : Nat) (st : PState) (e : Eff) :
+    (Spec.replaced k pid st e).procs pid = some st := if_pos rfl
+
+/-! ### get reads the kernel -/
+
+theorem C18_get_nice (c : Cfg) (k : Kernel) (pid : Nat) (st : PState) (hpid : pid ≠ 0)
+    (hst : k.procs pid = some st) : step c k pid (.nice none) = (.ok (.int st.nice), k) :=
+  refines_nice c k pid st none _ _ hpid hst rfl
+
+theorem C18_get_ionice (c : Cfg) (hg : c.Good) (k : Kernel) (pid : Nat) (st : PState) (hpid : pid ≠ 0)
+    (hst : k.procs pid = some st) (hcls : st.ioprio / 8192 ≤ 3) :
+    step c k pid (.ionice none none) = (.ok (.ionice (st.ioprio / 8192) (st.ioprio % 8192)), k) :=
+  refines_ionice c hg k pid st none none _ _ hpid hst (by simp [Spec.expect, hcls])
+
+theorem C18_get_affinity (c : Cfg) (hg : c.Good) (k : Kernel) (pid : Nat) (st : PState) (hpid : pid ≠ 0)
+    (hst : k.procs pid = some st) (hwf : WF k st) :
+    step c k pid (.cpuAffinity none) = (.ok (.cpus st.affinity), k) := by
+  have h := refines_affinity c hg k pid st none _ _ hpid hst hwf (fun h => h) rfl
+  rwa [show Spec.ascending k st.affinity = st.affinity from
+    rangeFilter_contains_self hwf.asc (fun x hx => (hwf.sub x hx).1)] at h
+
+theorem C18_get_rlimit (c : Cfg) (hg : c.Good) (k : Kernel) (pid : Nat) (st : PState) (hpid : pid ≠ 0)
+    (hst : k.procs pid = some st) (res : Nat) (hres : res < 16) (s h : Int)
+    (hs : Spec.limitToPy (st.rlimits res).1 = some s) (hh : Spec.limitToPy (st.rlimits res).2 = some h) :
+    step c k pid (.rlimit res none) = (.ok (.limits s h), k) :=
+  refines_rlimit c hg k pid st res none _ _ hpid hst (by
+    have : (0 : Int) ≤ (res : Int) ∧ (res : Int) < 16 := by omega
+    simp only [Spec.expect, this, and_self, if_true, Int.toNat_natCast, hs, hh])
+
+/-! ### set, then get -/
+
+theorem C18_set_then_get_nice (c : Cfg) (k : Kernel) (pid : Nat) (st : PState) (v : Int)
+    (hpid : pid ≠ 0) (hst : k.procs pid = some st) (hv : -20 ≤ v ∧ v ≤ 19) :
+    ∃ k', step c k pid (.nice (some v)) = (.ok .none, k') ∧
+      k'.procs pid = some { st with nice := v } ∧
+      step c k' pid (.nice none) = (.ok (.int v), k') := by
+  refine ⟨Spec.replaced k pid { st with nice := v } (.nice pid v),
+    refines_nice c k pid st (some v) _ _ hpid hst (by simp [Spec.expect, hv]), ?_, ?_⟩
+  · exact replaced_self _ _ _ _
+  · exact C18_get_nice c _ pid _ hpid (replaced_self _ _ _ _)
+
+/-- the values `ionice(ioclass, value)` accepts: RT/BE with a level 0..7 (or none = 0),
+    NONE/IDLE with no level -/
+def ValidIonice (cls : Int) (value : Option Int) : Prop :=
+  ((cls = 1 ∨ cls = 2) ∧ 0 ≤ value.getD 0 ∧ value.getD 0 ≤ 7) ∨ ((cls = 0 ∨ cls = 3) ∧ value.getD 0 = 0)
+
+theorem C18_set_then_get_ionice (c : Cfg) (hg : c.Good) (k : Kernel) (pid : Nat) (st : PState)
+    (cls : Int) (value : Option Int) (hpid : pid ≠ 0) (hst : k.procs pid = some st)
+    (hv : ValidIonice cls value) :
+    ∃ k', step c k pid (.ionice (some cls) value) = (.ok .none, k') ∧
+      k'.procs pid = some { st with ioprio := cls.toNat * 8192 + (value.getD 0).toNat } ∧
+      step c k' pid (.ionice none none) = (.ok (.ionice cls.toNat (value.getD 0).toNat), k') := by
+  have h1 : 0 ≤ cls ∧ cls ≤ 3 := by unfold ValidIonice at hv; omega
+  have h2 : ¬ (value.getD 0 < 0 ∨ value.getD 0 > 7) := by unfold ValidIonice at hv; omega
+  have h3 : ¬ ((cls = 0 ∨ cls = 3) ∧ value.getD 0 ≠ 0) := by unfold ValidIonice at hv; omega
+  refine ⟨Spec.replaced k pid { st with ioprio := Spec.ioprioValue cls.toNat (value.getD 0).toNat }
+        (.ioprio pid (Spec.ioprioValue cls.toNat (value.getD 0).toNat)),
+    refines_ionice c hg k pid st (some cls) value _ _ hpid hst
+    (by simp only [Spec.expect, h1, and_self, if_true, h2, if_false, h3]), ?_, ?_⟩
+  · simp [Spec.replaced, Spec.ioprioValue]
+  · have hget := C18_get_ionice c hg
+      (Spec.replaced k pid { st with ioprio := Spec.ioprioValue cls.toNat (value.getD 0).toNat }
+        (.ioprio pid (Spec.ioprioValue cls.toNat (value.getD 0).toNat))) pid
+      { st with ioprio := Spec.ioprioValue cls.toNat (value.getD 0).toNat } hpid
+      (replaced_self _ _ _ _) (by simp only [Spec.ioprioValue]; omega)
+    have e1 : Spec.ioprioValue cls.toNat (value.getD 0).toNat / 8192 = cls.toNat := by
+      simp only [Spec.ioprioValue]; omega
+    have e2 : Spec.ioprioValue cls.toNat (value.getD 0).toNat % 8192 = (value.getD 0).toNat := by
+      simp only [Spec.ioprioValue]; omega
+    simp only [e1, e2] at hget
+    exact hget
+
+/-- a CPU list every element of which is an eligible CPU of the process -/
+def ValidCpus (k : Kernel) (st : PState) (cpus : List Int) : Prop :=
+  cpus ≠ [] ∧ ∀ x ∈ cpus, 0 ≤ x ∧ x.toNat < k.ncpu ∧ x.toNat ∈ st.cpuset
+
+theorem C18_set_then_get_affinity (c : Cfg) (hg : c.Good) (k : Kernel) (pid : Nat) (st : PState)
+    (cpus : List Int) (hpid : pid ≠ 0) (hst : k.procs pid = some st) (hwf : WF k st)
+    (hv : ValidCpus k st cpus) :
+    ∃ k' a, step c k pid (.cpuAffinity (some cpus)) = (.ok .none, k') ∧
+      k'.procs pid = some { st with affinity := a } ∧
+      Asc a ∧ (∀ x : Nat, x ∈ a ↔ (x : Int) ∈ cpus) ∧
+      step c k' pid (.cpuAffinity none) = (.ok (.cpus a), k') := by
+  obtain ⟨hne, hall⟩ := hv
+  have hemp : cpus.isEmpty = false := by
+    cases cpus with
+    | nil => exact absurd rfl hne
+    | cons _ _ => rfl
+  have hallb : (cpus.all fun x => decide (0 ≤ x) && (Spec.eligible k st).contains x.toNat) = true := by
+    rw [List.all_eq_true]
+    intro x hx
+    obtain ⟨h0, h1, h2⟩ := hall x hx
+    simp only [Bool.and_eq_true, decide_eq_true_eq, List.contains_iff_mem]
+    exact ⟨h0, (mem_eligible k st _).2 ⟨h1, h2⟩⟩
+  have hreg : ¬ InFindingRegion k st (.cpuAffinity (some cpus)) := by
+    rintro ⟨_, h, _⟩
+    cases hc : cpus with
+    | nil => exact hne hc
+    | cons y _ => exact (h y (by simp [hc])).2.2 (hall y (by simp [hc])).2.2
+  have hmem : ∀ x : Nat, x ∈ Spec.ascending k (cpus.map Int.toNat) ↔ (x : Int) ∈ cpus := by
+    intro x
+    simp only [Spec.ascending, List.mem_filter, List.mem_range, List.contains_iff_mem, List.mem_map]
+    constructor
+    · rintro ⟨_, y, hy, rfl⟩
+      rw [Int.toNat_of_nonneg (hall y hy).1]; exact hy
+    · intro hx
+      have := hall _ hx
+      exact ⟨by simpa using this.2.1, (x : Int), hx, by simp⟩
+  have hwf' : WF (Spec.replaced k pid { st with affinity := Spec.ascending k (cpus.map Int.toNat) }
+      (.affinity pid (Spec.ascending k (cpus.map Int.toNat))))
+      { st with affinity := Spec.ascending k (cpus.map Int.toNat) } := by
+    refine ⟨hwf.ncpu, asc_rangeFilter _ _, ?_, ?_, hwf.ioprio, hwf.rl⟩
+    · intro x hx
+      have hx' := (hmem x).1 hx
+      have := hall _ hx'
+      show x < k.ncpu ∧ x ∈ st.cpuset
+      simpa using this.2
+    · cases hc : cpus with
+      | nil => exact absurd hc hne
+      | cons y rest =>
+        have hy : y ∈ cpus := by simp [hc]
+        have : y.toNat ∈ Spec.ascending k (cpus.map Int.toNat) :=
+          (hmem _).2 (by rw [Int.toNat_of_nonneg (hall y hy).1]; exact hy)
+        rw [hc] at this
+        intro h
+        simp only at h
+        rw [h] at this; cases this
+  refine ⟨Spec.replaced k pid { st with affinity := Spec.ascending k (cpus.map Int.toNat) }
+      (.affinity pid (Spec.ascending k (cpus.map Int.toNat))), Spec.ascending k (cpus.map Int.toNat),
+    refines_affinity c hg k pid st (some cpus) _ _ hpid hst hwf hreg
+    (by simp only [Spec.expect, hemp, Bool.false_eq_true, if_false, hallb, if_true]), ?_,
+    asc_rangeFilter _ _, hmem, ?_⟩
+  · exact replaced_self _ _ _ _
+  · exact C18_get_affinity c hg _ pid _ hpid (replaced_self _ _ _ _) hwf'
+
+/-- limits the statement quantifies over: a pair `soft ≤ hard` of values below 2^63 or
+    RLIM_INFINITY (−1), which this caller is allowed to set (`fs.nr_open` for NOFILE; raising
+    the hard limit needs CAP_SYS_RESOURCE) -/
+def ValidLimits (k : Kernel) (st : PState) (res : Nat) (s h : Int) (s' h' : Nat) : Prop :=
+  res < 16 ∧ Spec.limitOfPy s = some s' ∧ Spec.limitOfPy h = some h' ∧ s' ≤ h' ∧
+    (res = 7 → h' ≤ k.nrOpen) ∧ (k.capResource = true ∨ h' ≤ (st.rlimits res).2)
+
+theorem limitToPy_limitOfPy {v : Int} {n : Nat} (h : Spec.limitOfPy v = some n) : Spec.limitToPy n = some v := by
+  unfold Spec.limitOfPy at h
+  unfold Spec.limitToPy
+  split at h
+  · rename_i e; subst e
+    simp only [Option.some.injEq] at h; subst h; rfl
+  · split at h
+    · simp only [Option.some.injEq] at h; subst h
+      have : ¬ (v.toNat = Spec.rlimInfinity) := by simp only [Spec.rlimInfinity]; omega
+      have h2 : v.toNat < 9223372036854775808 := by omega
+      simp only [this, if_false, h2, if_true, Option.some.injEq]
+      omega
+    · cases h
+
+theorem C18_set_then_get_rlimit (c : Cfg) (hg : c.Good) (k : Kernel) (pid : Nat) (st : PState)
+    (res : Nat) (s h : Int) (s' h' : Nat) (hpid : pid ≠ 0) (hst : k.procs pid = some st)
+    (hv : ValidLimits k st res s h s' h') :
+    ∃ k', step c k pid (.rlimit res (some [s, h])) = (.ok .none, k') ∧
+      k'.procs pid = some { st with rlimits := fun r => if r = res then (s', h') else st.rlimits r } ∧
+      step c k' pid (.rlimit res none) = (.ok (.limits s h), k') := by
+  obtain ⟨hr, hs, hh, hle, hno, hcap⟩ := hv
+  have hres : (0 : Int) ≤ (res : Int) ∧ (res : Int) < 16 := by omega
+  have hno' : ((res : Int) = 7 → h' ≤ k.nrOpen) := fun e => hno (by omega)
+  refine ⟨Spec.replaced k pid { st with rlimits := fun r => if r = res then (s', h') else st.rlimits r }
+      (.rlimit pid res s' h'),
+    refines_rlimit c hg k pid st res (some [s, h]) _ _ hpid hst
+    (by
+      simp only [Spec.expect, hres, and_self, if_true, hs, hh, Int.toNat_natCast]
+      rw [if_pos ⟨hle, hno', hcap⟩]), ?_, ?_⟩
+  · exact replaced_self _ _ _ _
+  · refine C18_get_rlimit c hg _ pid _ hpid (replaced_self _ _ _ _) res hr s h ?_ ?_
+    · simp only [if_true]; exact limitToPy_limitOfPy hs
+    · simp only [if_true]; exact limitToPy_limitOfPy hh
+
+/-! ### nothing else changes -/
+
+/-- no call on `Process(pid)` — valid or not, whatever the configuration — changes the state
+    of another process or a kernel parameter -/
+theorem C18_others_unchanged (c : Cfg) (k : Kernel) (pid : Nat) (hpid : pid ≠ 0) (req : Req) :
+    (∀ q, q ≠ pid → (step c k pid req).2.procs q = k.procs q) ∧
+    (step c k pid req).2.ncpu = k.ncpu ∧ (step c k pid req).2.nrOpen = k.nrOpen ∧
+    (step c k pid req).2.capResource = k.capResource ∧ (step c k pid req).2.self = k.self :=
+  let f := frame_step c k hpid req
+  ⟨f.others, f.ncpu, f.nrOpen, f.cap, f.self⟩
+
+/-- a valid set replaces exactly the requested attribute of that process and logs exactly one
+    change (read off the specification, which `C18_refines` shows the code meets) -/
+theorem C18_set_changes_only_that (c : Cfg) (hg : c.Good) (k : Kernel) (pid : Nat) (st : PState)
+    (v : Int) (hpid : pid ≠ 0) (hst : k.procs pid = some st) (hv : -20 ≤ v ∧ v ≤ 19) :
+    ∀ st', (step c k pid (.nice (some v))).2.procs pid = some st' →
+      st'.ioprio = st.ioprio ∧ st'.affinity = st.affinity ∧ st'.cpuset = st.cpuset ∧
+      st'.rlimits = st.rlimits ∧ (step c k pid (.nice (some v))).2.log = k.log ++ [.nice pid v] := by
+  have _ := hg
+  rw [refines_nice c k pid st (some v) (.ok .none) (Spec.replaced k pid { st with nice := v } (.nice pid v))
+    hpid hst (by simp [Spec.expect, hv])]
+  intro st' h
+  rw [replaced_self] at h
+  simp only [Option.some.injEq] at h
+  subst h
+  exact ⟨rfl, rfl, rfl, rfl, rfl⟩
+
+/-! ### invalid requests: ValueError, nothing changes -/
+
+/-- level outside 0..7; a level for the idle/none class; a level without a class; limits that
+    are not a pair: ValueError and the very same kernel (state and effect log untouched) -/
+theorem C18_invalid_ValueError_no_effect (c : Cfg) (hg : c.Good) (k : Kernel) (pid : Nat) (st : PState)
+    (hpid : pid ≠ 0) (hst : k.procs pid = some st) :
+    (∀ cls value, 0 ≤ cls ∧ cls ≤ 3 → (Option.getD value 0 < 0 ∨ Option.getD value 0 > 7) →
+      step c k pid (.ionice (some cls) value) = (.exc .valueError, k)) ∧
+    (∀ cls value, (cls = 0 ∨ cls = 3) → Option.getD value 0 ≠ 0 →
+      step c k pid (.ionice (some cls) value) = (.exc .valueError, k)) ∧
+    (∀ value, step c k pid (.ionice none (some value)) = (.exc .valueError, k)) ∧
+    (∀ res limits, List.length limits ≠ 2 →
+      step c k pid (.rlimit res (some limits)) = (.exc .valueError, k)) := by
+  refine ⟨fun cls value h1 h2 => ?_, fun cls value h1 h2 => ?_, fun value => ?_, fun res limits h => ?_⟩
+  · exact refines_ionice c hg k pid st (some cls) value _ _ hpid hst
+      (by simp only [Spec.expect, h1, and_self, if_true, h2])
+  · by_cases h3 : Option.getD value 0 < 0 ∨ Option.getD value 0 > 7
+    · exact refines_ionice c hg k pid st (some cls) value _ _ hpid hst
+        (by
+          have : 0 ≤ cls ∧ cls ≤ 3 := by omega
+          simp only [Spec.expect, this, and_self, if_true, h3])
+    · exact refines_ionice c hg k pid st (some cls) value _ _ hpid hst
+        (by
+          have : 0 ≤ cls ∧ cls ≤ 3 := by omega
+          simp only [Spec.expect, this, and_self, if_true, h3, if_false, h1, h2, ne_eq, not_false_eq_true])
+  · exact refines_ionice c hg k pid st none (some value) _ _ hpid hst rfl
+  · refine refines_rlimit c hg k pid st res (some limits) _ _ hpid hst ?_
+    match limits, h with
+    | [], _ => rfl
+    | [_], _ => rfl
+    | _ :: _ :: _ :: _, _ => rfl
+
+/-- a non-empty CPU list naming only CPUs that do not exist or that the process may not use -/
+def OnlyUnusableCpus (k : Kernel) (st : PState) (cpus : List Int) : Prop :=
+  cpus ≠ [] ∧ ∀ x ∈ cpus, fitsCLong x = true ∧ (x < 0 ∨ k.ncpu ≤ x.toNat ∨ ¬ x.toNat ∈ st.cpuset)
+
+/-- the statement at full strength: such a list raises ValueError and changes nothing -/
+def C18_invalid_cpus_Full (c : Cfg) : Prop :=
+  ∀ (k : Kernel) (pid : Nat) (st : PState) (cpus : List Int), pid ≠ 0 → k.procs pid = some st → WF k st →
+    OnlyUnusableCpus k st cpus → step c k pid (.cpuAffinity (some cpus)) = (.exc .valueError, k)
+
+theorem expect_of_onlyUnusable {k : Kernel} {st : PState} {cpus : List Int} (pid : Nat)
+    (h : OnlyUnusableCpus k st cpus) :
+    Spec.expect k pid st (.cpuAffinity (some cpus)) = .promised (.exc .valueError) k := by
+  obtain ⟨hne, hall⟩ := h
+  have hemp : cpus.isEmpty = false := by
+    cases cpus with
+    | nil => exact absurd rfl hne
+    | cons _ _ => rfl
+  have h1 : ¬ (cpus.all fun x => decide (0 ≤ x) && (Spec.eligible k st).contains x.toNat) = true := by
+    rw [List.all_eq_true]
+    intro hh
+    cases hc : cpus with
+    | nil => exact hne hc
+    | cons y _ =>
+      have hy : y ∈ cpus := by simp [hc]
+      have := hh y hy
+      simp only [Bool.and_eq_true, decide_eq_true_eq, List.contains_iff_mem] at this
+      have he := (mem_eligible k st _).1 this.2
+      have h0 := this.1
+      rcases (hall y hy).2 with h | h | h
+      · omega
+      · omega
+      · exact h he.2
+  have h2 : (cpus.all fun x => fitsCLong x && Spec.isNonexistentOrIneligible k st x) = true := by
+    rw [List.all_eq_true]
+    intro x hx
+    obtain ⟨hf, hu⟩ := hall x hx
+    simp only [Bool.and_eq_true, hf, true_and, Spec.isNonexistentOrIneligible, Bool.or_eq_true,
+      decide_eq_true_eq, Bool.not_eq_true', List.contains_eq_mem, decide_eq_false_iff_not]
+    rcases hu with hu | hu | hu
+    · exact Or.inl hu
+    · exact Or.inr (fun he => by have := ((mem_eligible k st _).1 he).1; omega)
+    · exact Or.inr (fun he => hu ((mem_eligible k st _).1 he).2)
+  simp only [Spec.expect, hemp, Bool.false_eq_true, if_false, h1, h2, if_true]
+
+/-- proved part: outside the region of the known finding (i.e. when some listed CPU does not
+    exist, or when the status line starts with a range) the statement holds -/
+theorem C18_invalid_cpus_partial (c : Cfg) (hg : c.Good) (k : Kernel) (pid : Nat) (st : PState)
+    (cpus : List Int) (hpid : pid ≠ 0) (hst : k.procs pid = some st) (hwf : WF k st)
+    (h : OnlyUnusableCpus k st cpus)
+    (hout : (∃ x ∈ cpus, x < 0 ∨ k.ncpu ≤ x.toNat) ∨ statusRange st.affinity ≠ none) :
+    step c k pid (.cpuAffinity (some cpus)) = (.exc .valueError, k) := by
+  refine refines_affinity c hg k pid st (some cpus) _ _ hpid hst hwf ?_ (expect_of_onlyUnusable pid h)
+  rintro ⟨_, hall, hsr⟩
+  rcases hout with ⟨x, hx, hx'⟩ | hout
+  · have := hall x hx; omega
+  · exact hout hsr
+
+/-- a concrete kernel: 4 CPUs, the process confined to CPUs 0-1 and currently on CPU 0 -/
+def kWitness : Kernel :=
+  { procs := fun q => if q = 7 then
+      some { nice := 0, ioprio := 0, affinity := [0], cpuset := [0, 1], rlimits := fun _ => (0, 0) } else none
+    self := 1, ncpu := 4, nrOpen := 1048576, capResource := true, log := [] }
+
+def stWitness : PState :=
+  { nice := 0, ioprio := 0, affinity := [0], cpuset := [0, 1], rlimits := fun _ => (0, 0) }
+
+theorem wf_witness : WF kWitness stWitness :=
+  ⟨by decide, by decide, by decide, by decide, by decide, fun _ => ⟨by simp [stWitness], by simp [stWitness]⟩⟩
+
+/-- the full statement is false of the code (known finding `C18-ineligible-oserror`):
+    `cpu_affinity([2])` on that process raises OSError(EINVAL), not ValueError -/
+theorem C18_invalid_cpus_counterexample : ¬ C18_invalid_cpus_Full cfg := by
+  intro h
+  have := h kWitness 7 stWitness [2] (by decide) rfl wf_witness ⟨by decide, by decide⟩
+  have h2 : (step cfg kWitness 7 (.cpuAffinity (some [2]))).1 = .exc (.osError .EINVAL) := by decide
+  rw [this] at h2
+  cases h2
+
+/-! ### `cpu_affinity([])` -/
+
+theorem C18_empty_selects_all_eligible (c : Cfg) (hg : c.Good) (k : Kernel) (pid : Nat) (st : PState)
+    (hpid : pid ≠ 0) (hst : k.procs pid = some st) (hwf : WF k st) :
+    ∃ k', step c k pid (.cpuAffinity (some [])) = (.ok .none, k') ∧
+      k'.procs pid = some { st with affinity := Spec.eligible k st } ∧
+      ∀ x, x ∈ Spec.eligible k st ↔ x < k.ncpu ∧ x ∈ st.cpuset := by
+  refine ⟨Spec.replaced k pid { st with affinity := Spec.eligible k st } (.affinity pid (Spec.eligible k st)),
+    refines_affinity c hg k pid st (some []) _ _ hpid hst hwf (fun h => h.1 rfl) rfl, ?_,
+    mem_eligible k st⟩
+  exact replaced_self _ _ _ _
+
+/-- the same front end taking the CPUs from `_get_eligible_cpus()` (the unfixed code) -/
+def cfgStatusRange : Cfg := { cfg with emptyAsksAll := none }
+
+/-- why the empty list must not be resolved through `/proc/<pid>/status`: once the mask is
+    `0-1` of four CPUs, `cpu_affinity([])` leaves it at `0-1` -/
+theorem C18_empty_needs_full_mask :
+    ((step cfgStatusRange
+        { kWitness with procs := fun q => if q = 7 then some { stWitness with affinity := [0, 1], cpuset := [0, 1, 2, 3] } else none }
+        7 (.cpuAffinity (some []))).2.procs 7).map (·.affinity) = some [0, 1] := by
+  decide
+
+/-! ### duplicates, order, shape of the result -/
+
+/-- two CPU lists naming the same CPUs (duplicates, any order) have the same effect -/
+theorem C18_dedup (c : Cfg) (hg : c.Good) (k : Kernel) (pid : Nat) (st : PState) (l l' : List Int)
+    (hpid : pid ≠ 0) (hst : k.procs pid = some st) (hn : k.ncpu ≤ 1024)
+    (hl : AllLong l) (hl' : AllLong l') (hne : l ≠ []) (hne' : l' ≠ [])
+    (hsame : ∀ x, x ∈ l ↔ x ∈ l') :
+    step c k pid (.cpuAffinity (some l)) = step c k pid (.cpuAffinity (some l')) := by
+  have e1 : l.isEmpty = false := by cases l <;> simp_all
+  have e2 : l'.isEmpty = false := by cases l' <;> simp_all
+  simp only [step, cpuAffinity, e1, e2, Bool.false_eq_true, if_false, dedup, hg.dedup, if_true]
+  have hdiag : ∀ el, diagnose (List.range k.ncpu) el (pySet l) = diagnose (List.range k.ncpu) el (pySet l') := by
+    intro el
+    rw [Bool.eq_iff_iff, diagnose_true, diagnose_true]
+    constructor
+    · rintro ⟨x, hx, h⟩; exact ⟨x, (mem_pySet _ _).2 ((hsame x).1 ((mem_pySet _ _).1 hx)), h⟩
+    · rintro ⟨x, hx, h⟩; exact ⟨x, (mem_pySet _ _).2 ((hsame x).2 ((mem_pySet _ _).1 hx)), h⟩
+  by_cases hm : (-1 : Int) ∈ l
+  · have hm' : (-1 : Int) ∈ l' := (hsame _).1 hm
+    have a := cpuSetOfSeq_minus1 (allLong_pySet hl) ((mem_pySet l _).2 hm)
+    have b := cpuSetOfSeq_minus1 (allLong_pySet hl') ((mem_pySet l' _).2 hm')
+    simp only [cpuAffinitySet, cextAffinitySet, a, b, hdiag]
+  · have hm' : (-1 : Int) ∉ l' := fun h => hm ((hsame _).2 h)
+    obtain ⟨m, a, ha⟩ := cpuSetOfSeq_ok (allLong_pySet hl) (fun h => hm ((mem_pySet l _).1 h))
+    obtain ⟨m', b, hb⟩ := cpuSetOfSeq_ok (allLong_pySet hl') (fun h => hm' ((mem_pySet l' _).1 h))
+    have ha' : ∀ x : Nat, x ∈ m ↔ (x < 1024 ∧ (x : Int) ∈ l) := fun x => by rw [ha, mem_pySet]
+    have hb' : ∀ x : Nat, x ∈ m' ↔ (x < 1024 ∧ (x : Int) ∈ l) := fun x => by rw [hb, mem_pySet, hsame]
+    have hg1 := granted_eq k st m l hn ha'
+    have hg2 := granted_eq k st m' l hn hb'
+    have hsys : sysSchedSetaffinity k pid m = sysSchedSetaffinity k pid m' := by
+      simp only [sysSchedSetaffinity, resolve_pid k hpid, hst, hg1, hg2]
+    simp only [cpuAffinitySet, cextAffinitySet, a, b, hsys, hdiag]
+
+/-- whatever the native layer reports, the get form returns an ascending duplicate-free list -/
+theorem C18_get_sorted_unique (c : Cfg) (hg : c.Good) (k k' : Kernel) (pid : Nat) (l : List Nat)
+    (h : step c k pid (.cpuAffinity none) = (.ok (.cpus l), k')) : l.Pairwise (· < ·) := by
+  simp only [step, cpuAffinity, hg.sorted, if_true] at h
+  split at h
+  · simp only [Prod.mk.injEq, Out.ok.injEq, Val.cpus.injEq] at h
+    rw [← h.1]; exact asc_sortedSet _
+  · simp at h
+
+/-! ### PID 0 -/
+
+/-- `rlimit` never reaches the kernel for PID 0 (where `prlimit` would act on the caller) -/
+theorem C18_rlimit_pid0_refused (c : Cfg) (hg : c.Good) (k : Kernel) (res : Int) (l : Option (List Int)) :
+    step c k 0 (.rlimit res l) = (.exc .valueError, k) := by
+  simp [step, rlimitL, hg.pid0]
+
+/-- why the other theorems assume `pid ≠ 0`: for the kernel PID 0 is the caller -/
+theorem C18_pid0_is_the_caller :
+    ((step cfg { kWitness with self := 7 } 0 (.nice (some 5))).2.procs 7).map (·.nice) = some 5 := by
+  decide
+
+/-! ### the hypotheses are satisfiable -/
+
+example : WF kWitness stWitness ∧ kWitness.procs 7 = some stWitness ∧ (7 : Nat) ≠ 0 :=
+  ⟨wf_witness, rfl, by decide⟩
+example : ValidIonice 2 (some 5) ∧ ValidIonice 3 none := by unfold ValidIonice; simp
+example : ValidCpus kWitness stWitness [1, 0, 1] := ⟨by decide, by decide⟩
+example : ValidLimits kWitness stWitness 3 5 (-1) 5 Spec.rlimInfinity :=
+  ⟨by decide, by decide, by decide, by decide, by decide, Or.inl rfl⟩
+example : OnlyUnusableCpus kWitness stWitness [2, 9, -1] := ⟨by decide, by decide⟩
+example : ¬ InFindingRegion kWitness stWitness (.cpuAffinity (some [9])) := by
+  rintro ⟨_, h, _⟩; have := h 9 (by simp); simp [kWitness] at this
+example : InFindingRegion kWitness stWitness (.cpuAffinity (some [2])) := ⟨by decide, by decide, by decide⟩
+
 end Psutil.C18
